@@ -48,10 +48,11 @@ LARGE = 1e16
 run_lean_unit = J.run_lean_unit
 
 SPECIALS = [0.0, -0.0, -1.0, 1.0, -2.0, 0.5, 2.0, -0.5]
+NEAR = [1e-7, -1e-9, 1e-150, 700.0]
 BASE = [0.75, 1.25, 1.75, 0.375, 2.25, 0.625, 1.5, 2.75]
 
 
-def closure_cases(rng):
+def closure_cases(rng, full=False):
     """(tag, kind, expr, V) — kind ∈ grad | jac | hess; one per closure kind × V shape"""
     from optyx.core import vectors as Vc
     from optyx.core import matrices as Mx
@@ -84,11 +85,97 @@ def closure_cases(rng):
         ("ps+c", Vc.VectorPowerSum(x, 0.5) + 1.0), ("2*us", 2.0 * Vc.VectorUnarySum(x, "sqrt")), ("us*2", Vc.VectorUnarySum(x, "log") * 2.0),
         ("usabs+0", Vc.VectorUnarySum(x, "abs") + 0.0), ("l2/l1", Vc.L2Norm(x) / Vc.L1Norm(x)),
     ]
+    # huge-but-finite regular entries next to singular ones (coefficients ≫ 1e16, exp below overflow)
+    gens += [
+        ("huge:coef+sqrt", 1e18 * a + sqrt(b)), ("huge:coef*b+log", -3e20 * a * b + log(b)), ("huge:coef+abs", 2e17 * a * a + fabs(b)),
+        ("huge:lc+log", Vc.LinearCombination(np.array([1e18, -3e20, 2.0]), x) + log(x[0])),
+        ("huge:c*us", 2e20 * Vc.VectorUnarySum(x, "sqrt")), ("huge:us*c", Vc.VectorUnarySum(x, "log") * -5e17),
+        ("huge:c*ps", 4e19 * Vc.VectorPowerSum(x, 0.5)), ("huge:exp+inv", exp(a * 7.0) + 1.0 / b), ("huge:a/b", a / b + sqrt(a)),
+        ("huge:dot*c+l2", 1e19 * Vc.DotProduct(x, x) + Vc.L2Norm(x)),
+    ]
     for tag, e in gens:
         V = sorted({v.name: v for v in gen.expr_vars(e)}.values(), key=lambda v: v.name)
         for kind in ("grad", "jac", "hess"):
-            out.append((f"gen:{tag}", kind, e, V))
+            out.append((f"gen:{tag}", kind, e, V, None))
+    out += reduction_compositions(rng, U, full)
+    return [c if len(c) == 5 else c + (None,) for c in out]
+
+
+INCLUDE_PARAMETER_SINGULARITIES = True   # reported as a finding (compiled derivatives of x / p raise at p = 0); enable when decided
+
+
+def reduction_compositions(rng, U, full=False):
+    """{singular elementary function / denominator / negative or fractional power} ∘ {vector / matrix reduction}
+    (+ the same with scalar sub-expressions mixed in), evaluated at the zeros and the ±1 levels of the inner reduction —
+    the points where the outer function is singular although no single coordinate is special"""
+    from optyx.core import vectors as Vc
+    from optyx.core import matrices as Mx
+    from optyx.core.expressions import Constant
+    from optyx.core.functions import log, sqrt, tan, asin, acosh, atanh, abs_ as fabs, log2, log10
+
+    x, y, M, S = U.x, U.y, U.M, U.S
+    a = U.scalars[0]
+    Q = np.array([[1.0, 2.0, 0.0], [0.5, 1.0, -1.0], [0.0, 3.0, 2.0]])
+    reds = [
+        ("sum", x.sum()), ("lc", Vc.LinearCombination(np.array([1.0, -2.0, 1.0]), x)), ("lcve", Vc.LinearCombination(np.array([1.0, 1.0, -1.0]), x * 2.0)),
+        ("dotxy", Vc.DotProduct(x, y)), ("dotxx", Vc.DotProduct(x, x)), ("dotve", Vc.DotProduct(x - y, x)),
+        ("ps2", Vc.VectorPowerSum(x, 2)), ("ps3", Vc.VectorPowerSum(x, 3)), ("ps1", Vc.VectorPowerSum(x, 1)),
+        ("ussin", Vc.VectorUnarySum(x, "sin")), ("ustanh", Vc.VectorUnarySum(x, "tanh")), ("usabs", Vc.VectorUnarySum(x, "abs")),
+        ("qf", Mx.QuadraticForm(x, Q)), ("l2", Vc.L2Norm(x)), ("l1", Vc.L1Norm(x)), ("es", (x - y).sum()),
+        ("msum", M.sum()), ("ssum", S.sum()), ("mse", (M * M).sum()), ("fro", Mx.FrobeniusNorm(M)),
+        ("sum+a", x.sum() + a), ("dotxx*a", Vc.DotProduct(x, x) * a), ("sum*sum", x.sum() * y.sum()),
+    ]
+    outers = [
+        ("log", lambda r: log(r)), ("log2", lambda r: log2(r)), ("sqrt", lambda r: sqrt(r)), ("1/r", lambda r: 1.0 / r),
+        ("r**-1", lambda r: r ** -1.0), ("r**-0.5", lambda r: r ** -0.5), ("r**0.5", lambda r: r ** 0.5), ("r**1.5", lambda r: r ** 1.5),
+        ("abs", lambda r: fabs(r)), ("c/r", lambda r: Constant(2.5) / r), ("a/r", lambda r: a / r), ("r/r", lambda r: r / r),
+        ("acosh", lambda r: acosh(r)), ("asin", lambda r: asin(r)), ("atanh", lambda r: atanh(r)), ("tan", lambda r: tan(r)),
+        ("log10*a", lambda r: log10(r) * a), ("1/sqrt", lambda r: 1.0 / sqrt(r)),
+    ]
+    out = []
+    for ri, (rn, r) in enumerate(reds):
+        for oi, (on, f) in enumerate(outers):
+            if not full and (ri + oi) % 3 != 0:
+                continue   # quick tier: a third of the product, every reduction × 6 outer functions, every outer × ~8 reductions
+            e = f(r)
+            V = sorted({v.name: v for v in gen.expr_vars(e)}.values(), key=lambda v: v.name)
+            pts = level_points(rng, r, V)
+            kinds = ("grad", "jac", "hess") if len(V) <= 4 else ("grad", "jac")
+            for kind in kinds:
+                out.append((f"red:{on}∘{rn}", kind, e, V, pts))
+    if INCLUDE_PARAMETER_SINGULARITIES:
+        p = U.params[0]
+        for tag, e in (("x/p", x[0] / p), ("x*p**-1", x[0] * p ** -1.0), ("sum/p", x.sum() / p), ("log(p)*x", log(p) * x[0])):
+            V = sorted({v.name: v for v in gen.expr_vars(e)}.values(), key=lambda v: v.name)
+            for kind in ("grad", "jac", "hess"):
+                out.append((f"par0:{tag}", kind, e, V, [[0.75] * len(V), [0.0] * len(V)]))
     return out
+
+
+def level_points(rng, r, V):
+    """candidate points at which the inner reduction takes one of the values 0, +1, −1 (zeros and unit levels),
+    plus two generic points"""
+    n = len(V)
+    names = [v.name for v in V]
+    cands = [[0.0] * n]
+    for j in range(min(n, 3)):
+        for val in (1.0, -1.0, 0.5):
+            c = [0.0] * n; c[j] = val; cands.append(c)
+    pats = [[1.0, -2.0, 1.0], [1.0, 1.0, -2.0], [1.0, -1.0, 0.0], [0.5, 0.5, 0.0], [2.0, -1.0, -1.0], [0.5, -0.5, 1.0], [1.0, 0.0, -1.0]]
+    for pat in pats:
+        cands.append([(pat[i % 3] if i < 3 or n <= 4 else 0.0) for i in range(n)])
+        cands.append([(pat[i % 3] if i % 2 == 0 else 0.0) for i in range(n)])
+    keep = []
+    for c in cands:
+        val = J.grab(lambda: float(np.asarray(r.evaluate(dict(zip(names, c))))))
+        if isinstance(val, str):
+            continue
+        if val in (0.0, 1.0, -1.0) and c not in keep:
+            keep.append(c)
+    keep = keep[:7]
+    keep.append([BASE[i % len(BASE)] for i in range(n)])
+    keep.append([rng.choice(SPECIALS + BASE) for _ in range(n)])
+    return keep
 
 
 def points_for(rng, n, thorough):
@@ -102,14 +189,25 @@ def points_for(rng, n, thorough):
     pts.append([-0.0] * n)
     pts.append([-1.0] * n)
     pts.append([1.0] * n)
+    # one coordinate ON the singular set and a neighbour NEAR it / huge: the array then holds a non-finite raw entry
+    # (so the sanitiser's slow path runs) next to finite entries of magnitude ≫ 1e16 that must come back unchanged
+    if n >= 2:
+        for p in range(n):
+            for near in NEAR:
+                x = [BASE[(i + p) % len(BASE)] for i in range(n)]
+                x[p] = 0.0 if near != NEAR[1] else -1.0
+                x[(p + 1) % n] = near
+                if n >= 3 and near == NEAR[0]:
+                    x[(p + 2) % n] = NEAR[2]
+                pts.append(x)
     for _ in range(8 if thorough else 2):
         pts.append([rng.choice(SPECIALS + BASE) for _ in range(n)])
     return pts
 
 
-def sequences_for(rng, n, thorough):
+def sequences_for(rng, n, thorough, own_pts=None):
     """call sequences over the singular / regular points of an n-variable closure"""
-    pts = points_for(rng, n, False)
+    pts = own_pts if own_pts is not None else points_for(rng, n, False)
     sing = pts[:-2] if len(pts) > 2 else pts
     reg = [BASE[(i + 3) % len(BASE)] for i in range(n)]
     zero, negzero = [0.0] * n, [-0.0] * n
@@ -145,15 +243,27 @@ def flat(arr):
     return [float(v) for v in np.asarray(arr, dtype=float).ravel()]
 
 
-def same_class(real: float, model: float) -> bool:
-    """class 0 / ±1e16 compared exactly, anything else numerically"""
+def same_class(real: float, model: float, atol: float = 0.0) -> bool:
+    """class 0 / ±1e16 compared exactly, anything else numerically (rtol 1e-9; `atol` is the conditioning guard of the
+    array the entry lives in: an entry that is the difference of O(scale) terms carries O(1e-16·scale) rounding noise)"""
     if math.isnan(real) or math.isnan(model) or math.isinf(real) or math.isinf(model):
         return (math.isnan(real) and math.isnan(model)) or real == model
-    if real == 0.0 or model == 0.0:
-        return real == model
     if abs(real) == LARGE or abs(model) == LARGE:
         return real == model
-    return J.close(real, model, rtol=1e-9, atol=0.0)
+    if real == 0.0 or model == 0.0:
+        return real == model or abs(real - model) <= atol
+    return J.close(real, model, rtol=1e-9, atol=atol)
+
+
+def cancel_tol(*arrays) -> float:
+    """absolute tolerance for one array: 1e-12 × the magnitude of its ordinary entries (capped at 1e3, so never more
+    than 1e-9; huge entries are compared relatively)"""
+    scale = 1.0
+    for arr in arrays:
+        for v in arr:
+            if math.isfinite(v) and abs(v) < 1e3:
+                scale = max(scale, abs(v))
+    return 1e-12 * scale
 
 
 def expected_from_raw(raw: float) -> float:
@@ -200,9 +310,10 @@ def check_real(kind, e, V, xs):
         fails.append({"what": f"compiled {kind} returned a non-finite entry at a finite point", "path": fn.__name__, "got": got})
     raw = J.grab(lambda: raw_entries(kind, e, V, xs))
     if not isinstance(raw, str) and len(raw) == len(got):
+        tol = cancel_tol(got)
         for idx, (r, g) in enumerate(zip(raw, got)):
             want = expected_from_raw(r)
-            if not same_class(g, want) and not (abs(want) > 1e15 and abs(g) > 1e15 and (want > 0) == (g > 0)):
+            if not same_class(g, want, tol):
                 fails.append({"what": "entry is not the sanitised value of the unsanitised derivative "
                                       "(finite → unchanged, NaN → 0, ±Inf → ±1e16)", "path": fn.__name__,
                               "entry": idx, "unsanitised": r, "got": g, "want": want})
@@ -211,8 +322,9 @@ def check_real(kind, e, V, xs):
     if not isinstance(gfn, str):
         gg = J.grab(lambda: flat(gfn(x)))
         if not isinstance(gg, str) and len(gg) == len(got):
+            tol = cancel_tol(got, gg)
             for idx, (a, b2) in enumerate(zip(got, gg)):
-                if not same_class(a, b2):
+                if not same_class(a, b2, tol):
                     fails.append({"what": "specialised path and general path (e + 0) disagree", "path": fn.__name__,
                                   "general_path": gfn.__name__, "entry": idx, "got": a, "general": b2})
                     break
@@ -228,10 +340,10 @@ def run(ctx) -> core.Report:
                            "norms) × singular values {0, −0.0, ±1, −2, ±.5, 2} at every position + origin.  "
                            "non-trivial = distinct (closure, point) where some unsanitised entry is NaN or ±Inf",
                       exhaustive=True)
-    cases = closure_cases(rng)
+    cases = closure_cases(rng, thorough)
     lines, metas = [], []
     cmd = {"grad": ("gradsv", "gradrun"), "jac": ("jacsv", "jacrun"), "hess": ("hesssv", "hessrun")}
-    for tag, kind, e, V in cases:
+    for tag, kind, e, V, own_pts in cases:
         try:
             params = J.all_params([e])
             es_s, V_s, store = J.ser_case([e], V, params)
@@ -240,9 +352,12 @@ def run(ctx) -> core.Report:
             continue
         E = es_s[0] if kind != "jac" else J.plist(es_s)
         VV = J.plist(V_s)
-        pts = points_for(rng, len(V), thorough)
-        if kind == "hess" and not thorough:
-            pts = pts[::2] + pts[-4:]
+        if own_pts is not None:
+            pts = own_pts
+        else:
+            pts = points_for(rng, len(V), thorough)
+            if kind == "hess" and not thorough:
+                pts = pts[::2] + pts[-4:]
         for xs in pts:
             X = J.point_text(xs)
             idx = len(lines)
@@ -253,24 +368,29 @@ def run(ctx) -> core.Report:
     import optyx.core.autodiff as AD
 
     ev_metas = []
-    for tag, kind, e, V in cases:
+    for tag, kind, e, V, own_pts in cases:
         if kind != "grad":
             continue
-        for v in V:
+        for v in (V if (thorough or own_pts is None) else V[:2]):
             g = J.quiet(lambda: AD.gradient(e, v))
             try:
                 gs, _, store = J.ser_case([g], [], J.all_params([g]))
             except Unsupported:
                 continue
             names = sorted(J.names_of([g]) | {u.name for u in V})
-            for xs in points_for(rng, len(names), False)[:: (1 if thorough else 3)]:
+            ev_pts = points_for(rng, len(names), False)[:: (1 if thorough else 3)]
+            if own_pts is not None and names == [u.name for u in V]:
+                ev_pts = own_pts
+            for xs in ev_pts:
                 env = "(" + " ".join(f'("{nm}" {J.num_tok(float(a))})' for nm, a in zip(names, xs)) + ")"
                 ev_metas.append((tag, g, dict(zip(names, xs)), len(lines)))
                 lines.append(f"evalsv {gs[0]} {env} {store}")
     # _sanitize_derivatives itself
     san_metas = []
-    vals = [float("nan"), float("inf"), float("-inf"), 0.0, -0.0, 1.5, -2.0, 1e16, -1e16, 3.0]
-    arrays = [[v] for v in vals] + [[1.0, 2.0], [], [float("nan"), 1.0, float("inf")], [float("-inf"), -0.0, 2.5, float("nan")]]
+    vals = [float("nan"), float("inf"), float("-inf"), 0.0, -0.0, 1.5, -2.0, 1e16, -1e16, 3.0,
+            2e21, -3e30, 1.0000000000000002e16, -7e300, 1e17, 1e-150]
+    arrays = [[v] for v in vals] + [[1.0, 2.0], [], [float("nan"), 1.0, float("inf")], [float("-inf"), -0.0, 2.5, float("nan")],
+                                    [float("inf"), 2e21, -2.0], [float("nan"), -3e30, 7e300], [2e21, -3e30], [float("-inf"), 1e17, -1e17, 1e16]]
     for _ in range(40):
         arrays.append([rng.choice(vals) for _ in range(rng.randint(1, 6))])
     for arr in arrays:
@@ -305,7 +425,8 @@ def run(ctx) -> core.Report:
                 continue
             model = J.parse_nums(out)
             mflat = [v for r in model for v in r] if model and isinstance(model[0], list) else model
-            if len(mflat) != len(got) or not all(same_class(a, b) for a, b in zip(got, mflat)):
+            tol = cancel_tol(got, mflat) if len(mflat) == len(got) else 0.0
+            if len(mflat) != len(got) or not all(same_class(a, b, tol) for a, b in zip(got, mflat)):
                 mismatch(f"{kind}-{which}", tag, e, V, xs, params, got, mflat)
         fails = check_real(kind, e, V, xs)
         for f in fails:
@@ -321,10 +442,10 @@ def run(ctx) -> core.Report:
                                     "unsanitised": [str(r) for r in raw], "returned": got})
     # call sequences on one callable per closure case (history independence; every repeated answer finite)
     n_seq_calls = 0
-    for tag, kind, e, V in cases:
-        if not V:
+    for tag, kind, e, V, own_pts in cases:
+        if not V or (own_pts is not None and not thorough and rng.random() < 0.7):
             continue
-        seqs = sequences_for(rng, len(V), thorough)
+        seqs = sequences_for(rng, len(V), thorough, own_pts)
         fails, n_calls = J.check_sequences(kind, [e], V, seqs, require_finite=True)
         n_seq_calls += n_calls
         for f in fails:
@@ -367,9 +488,9 @@ def run(ctx) -> core.Report:
 def search(ctx, rep):
     rng = core.Rng(ctx["seed"] + 32452843)
     for rnd in range(3):
-        for tag, kind, e, V in closure_cases(rng):
+        for tag, kind, e, V, own_pts in closure_cases(rng, True):
             if V:
-                sf, _ = J.check_sequences(kind, [e], V, sequences_for(rng, len(V), True), require_finite=True)
+                sf, _ = J.check_sequences(kind, [e], V, sequences_for(rng, len(V), True, own_pts), require_finite=True)
                 if sf:
                     f = sf[0]
                     try:
@@ -379,7 +500,7 @@ def search(ctx, rep):
                     f["tag"] = tag
                     f["require_finite"] = True
                     return f
-            for xs in points_for(rng, len(V), True):
+            for xs in (own_pts if own_pts is not None else points_for(rng, len(V), True)):
                 fails = check_real(kind, e, V, xs)
                 if fails:
                     f = fails[0]
